@@ -82,4 +82,20 @@ CHECKS = {
              "each entry is one evaluation; distinct_nontrivial = distinct stored JSON texts",
         assumptions=["PostgreSQL column behaviour as stated in level_note", "encoding/json is the system's own encoding of the content"],
     ),
+    "C15": dict(
+        claim="Exploration under stress: a shadow lock table (entered after the real grant, left before the real release, so a shadow conflict is a real overlap) checks exclusivity on every grant; at quiescence no Lock call may still be pending; a clock-free probe (Lock with an already-cancelled context on all accounts) finds locks left behind; a GOMAXPROCS(1) scenario issues cancel and conflicting release back to back so the waiter wakes with both select cases ready; a third run repeats the stress under the race detector.",
+        note="Trusted: the shadow table (own mutex). 'Eventually granted' is decided at quiescence with a 30 s wall-clock bound (documented exception: a pending Lock after every holder released is the violation itself; a non-quiescent time-out is INCONCLUSIVE).",
+        technique="shadow-state invariant monitor + quiescence/leak probes under stress, forced cancel/grant coincidence, Go race detector",
+        engine="lockmon", level="exploration",
+        runs=[dict(mode="", shards={"quick": 4, "thorough": 16}, timeout=T),
+              dict(mode="coincide", shards={"quick": 2, "thorough": 8}, timeout=T),
+              dict(mode="race", race=True, shards={"quick": 2, "thorough": 8}, timeout=T, fatal_is_violation=True, env={"VERIF_DIV": "4"})],
+        race_anchor=r"engine/command/lock\.go|collectionutils/linked_list\.go",
+        thresholds={"quick": {"waits": 1000, "cancellations_of_waiting_requests": 300, "both_ready_wakeups": 2000, "leak_probes": 200, "race_detector_runs": 2},
+                    "thorough": {"waits": 100000, "cancellations_of_waiting_requests": 30000, "both_ready_wakeups": 150000}},
+        rule="rounds of 4-64 goroutines x 3-12 Lock/hold/Unlock operations on 2-6 accounts with random read/write sets (Commander shape: sources in both "
+             "sets; duplicates), 0/20/50 % cancellable requests cancelled before / concurrently with the call; coincide mode: 1-3 waiters behind one "
+             "holder, cancel+release in both orders on one P; distinct_nontrivial = distinct round configurations",
+        assumptions=["shadow table correctness", "30 s is far above the time a granted waiter needs to return on this machine"],
+    ),
 }
